@@ -211,7 +211,7 @@ func (rw *rewriter) pkgPath(x ast.Expr) string {
 }
 
 var selMap = map[string]map[string]string{
-	"sync":      {"Pool": "Pool", "Mutex": "Mutex", "RWMutex": "RWMutex", "WaitGroup": "WaitGroup"},
+	"sync":      {"Pool": "Pool", "Mutex": "Mutex", "RWMutex": "RWMutex", "WaitGroup": "WaitGroup", "Cond": "Cond", "NewCond": "NewCond", "Once": "Once"},
 	"time":      {"Now": "Now", "Since": "Since", "Sleep": "Sleep"},
 	"os":        {"Stat": "OsStat", "ReadFile": "OsReadFile", "WriteFile": "OsWriteFile", "MkdirAll": "OsMkdirAll", "ReadDir": "OsReadDir", "Remove": "OsRemove"},
 	"math/rand": {"Intn": "RandIntn", "Int31": "RandInt31", "Int31n": "RandInt31n", "Int63": "RandInt63", "Int63n": "RandInt63n", "Int": "RandInt", "Float64": "RandFloat64", "Seed": "RandSeed", "Perm": "RandPerm", "Shuffle": "RandShuffle"},
@@ -229,6 +229,13 @@ func (rw *rewriter) file(f *ast.File) {
 	isTest := strings.HasSuffix(rw.fset.Position(f.Pos()).Filename, "_test.go")
 	used := false
 	var funcStack []string
+	commParent := map[ast.Stmt]bool{}
+	ast.Inspect(f, func(n ast.Node) bool {
+		if cc, ok := n.(*ast.CommClause); ok && cc.Comm != nil {
+			commParent[cc.Comm] = true
+		}
+		return true
+	})
 	// 1. expression-level rewrites and map ranges (post-order so inner nodes are done first)
 	astutil.Apply(f, func(c *astutil.Cursor) bool {
 		if fd, ok := c.Node().(*ast.FuncDecl); ok {
@@ -240,6 +247,12 @@ func (rw *rewriter) file(f *ast.File) {
 		case *ast.FuncDecl:
 			funcStack = funcStack[:len(funcStack)-1]
 		case *ast.SelectorExpr:
+			if p := rw.pkgPath(n.X); p == "time" && !isTest {
+				switch n.Sel.Name {
+				case "After", "NewTimer", "Tick", "NewTicker", "AfterFunc":
+					rw.cen.Skipped = append(rw.cen.Skipped, "time."+n.Sel.Name+" (real timer, not simulated) at "+rw.fset.Position(n.Pos()).String())
+				}
+			}
 			if p := rw.pkgPath(n.X); p != "" {
 				if m, ok := selMap[p]; ok {
 					if to, ok := m[n.Sel.Name]; ok {
@@ -271,6 +284,17 @@ func (rw *rewriter) file(f *ast.File) {
 				rw.knob(n, funcStack[len(funcStack)-1], &used)
 			}
 		case *ast.RangeStmt:
+			if t := rw.info.TypeOf(n.X); t != nil && !isTest {
+				if _, ok := t.Underlying().(*types.Chan); ok {
+					if _, lab := c.Parent().(*ast.LabeledStmt); !lab {
+						c.Replace(rw.chanRange(n))
+						rw.cen.Rules["range-chan"]++
+						used = true
+						return true
+					}
+					rw.cen.Skipped = append(rw.cen.Skipped, "labeled channel range at "+rw.fset.Position(n.Pos()).String())
+				}
+			}
 			if t := rw.info.TypeOf(n.X); t != nil {
 				if _, ok := t.Underlying().(*types.Map); ok {
 					if _, lab := c.Parent().(*ast.LabeledStmt); lab {
@@ -281,6 +305,57 @@ func (rw *rewriter) file(f *ast.File) {
 					rw.cen.Rules["range-map"]++
 					used = true
 				}
+			}
+		case *ast.UnaryExpr:
+			// `<-ch` outside a select communication clause
+			if n.Op == token.ARROW && !isTest {
+				if _, inComm := c.Parent().(*ast.CommClause); inComm {
+					return true
+				}
+				if as, ok := c.Parent().(*ast.AssignStmt); ok {
+					if _, inComm := commParent[as]; inComm {
+						return true
+					}
+					if len(as.Lhs) == 2 && len(as.Rhs) == 1 {
+						c.Replace(&ast.CallExpr{Fun: simrtSel("Recv2"), Args: []ast.Expr{n.X}})
+						rw.cen.Rules["chan-recv"]++
+						used = true
+						return true
+					}
+				}
+				if es, ok := c.Parent().(*ast.ExprStmt); ok {
+					if _, inComm := commParent[es]; inComm {
+						return true
+					}
+				}
+				if vs, ok := c.Parent().(*ast.ValueSpec); ok && len(vs.Names) == 2 && len(vs.Values) == 1 {
+					c.Replace(&ast.CallExpr{Fun: simrtSel("Recv2"), Args: []ast.Expr{n.X}})
+					rw.cen.Rules["chan-recv"]++
+					used = true
+					return true
+				}
+				c.Replace(&ast.CallExpr{Fun: simrtSel("Recv"), Args: []ast.Expr{n.X}})
+				rw.cen.Rules["chan-recv"]++
+				used = true
+			}
+		case *ast.SendStmt:
+			if isTest {
+				return true
+			}
+			if _, inComm := commParent[n]; inComm {
+				return true
+			}
+			c.Replace(&ast.ExprStmt{X: &ast.CallExpr{Fun: simrtSel("Send"), Args: []ast.Expr{n.Chan, n.Value}}})
+			rw.cen.Rules["chan-send"]++
+			used = true
+		case *ast.SelectStmt:
+			if isTest {
+				return true
+			}
+			if repl, ok := rw.selectLoop(n, c.Parent()); ok {
+				c.Replace(repl)
+				rw.cen.Rules["select"]++
+				used = true
 			}
 		case *ast.GoStmt:
 			c.Replace(&ast.ExprStmt{X: &ast.CallExpr{Fun: simrtSel("Go"), Args: []ast.Expr{
@@ -338,6 +413,69 @@ func (rw *rewriter) knob(n *ast.BinaryExpr, fn string, used *bool) {
 		rw.cen.Knobs = append(rw.cen.Knobs, name)
 		*used = true
 	}
+}
+
+// chanRange rewrites `for v := range ch { body }` into a loop over simrt.Recv2.
+func (rw *rewriter) chanRange(n *ast.RangeStmt) ast.Stmt {
+	rw.tmp++
+	id := strconv.Itoa(rw.tmp)
+	ch, v, ok := ast.NewIdent("__ch"+id), ast.NewIdent("__v"+id), ast.NewIdent("__ok"+id)
+	pre := []ast.Stmt{
+		&ast.AssignStmt{Lhs: []ast.Expr{v, ok}, Tok: token.DEFINE, Rhs: []ast.Expr{&ast.CallExpr{Fun: simrtSel("Recv2"), Args: []ast.Expr{ch}}}},
+		&ast.IfStmt{Cond: &ast.UnaryExpr{Op: token.NOT, X: ok}, Body: &ast.BlockStmt{List: []ast.Stmt{&ast.BranchStmt{Tok: token.BREAK}}}},
+	}
+	if !blank(n.Key) {
+		tok := n.Tok
+		pre = append(pre, &ast.AssignStmt{Lhs: []ast.Expr{n.Key}, Tok: tok, Rhs: []ast.Expr{v}})
+	} else {
+		pre = append(pre, &ast.AssignStmt{Lhs: []ast.Expr{ast.NewIdent("_")}, Tok: token.ASSIGN, Rhs: []ast.Expr{v}})
+	}
+	return &ast.BlockStmt{List: []ast.Stmt{
+		&ast.AssignStmt{Lhs: []ast.Expr{ch}, Tok: token.DEFINE, Rhs: []ast.Expr{n.X}},
+		&ast.ForStmt{Body: &ast.BlockStmt{List: append(pre, n.Body.List...)}},
+	}}
+}
+
+// selectLoop turns a blocking select (no default) into a polling loop that yields as blocked:
+//
+//	__selN: for { select { case …: body; break __selN  …  default: simrt.YieldBlocked() } }
+//
+// Unlabeled breaks that targeted the select are pointed at the label.
+func (rw *rewriter) selectLoop(n *ast.SelectStmt, parent ast.Node) (ast.Stmt, bool) {
+	for _, cl := range n.Body.List {
+		if cc := cl.(*ast.CommClause); cc.Comm == nil {
+			return nil, false // has a default: never blocks
+		}
+	}
+	if _, lab := parent.(*ast.LabeledStmt); lab {
+		rw.cen.Skipped = append(rw.cen.Skipped, "labeled select at "+rw.fset.Position(n.Pos()).String())
+		return nil, false
+	}
+	rw.tmp++
+	label := ast.NewIdent("__sel" + strconv.Itoa(rw.tmp))
+	var retarget func(s ast.Stmt)
+	retarget = func(s ast.Stmt) {
+		ast.Inspect(s, func(x ast.Node) bool {
+			switch b := x.(type) {
+			case *ast.ForStmt, *ast.RangeStmt, *ast.SwitchStmt, *ast.TypeSwitchStmt, *ast.SelectStmt, *ast.FuncLit:
+				return false
+			case *ast.BranchStmt:
+				if b.Tok == token.BREAK && b.Label == nil {
+					b.Label = ast.NewIdent(label.Name)
+				}
+			}
+			return true
+		})
+	}
+	for _, cl := range n.Body.List {
+		cc := cl.(*ast.CommClause)
+		for _, st := range cc.Body {
+			retarget(st)
+		}
+		cc.Body = append(cc.Body, &ast.ExprStmt{X: &ast.CallExpr{Fun: simrtSel("Progress")}}, &ast.BranchStmt{Tok: token.BREAK, Label: ast.NewIdent(label.Name)})
+	}
+	n.Body.List = append(n.Body.List, &ast.CommClause{Body: []ast.Stmt{&ast.ExprStmt{X: &ast.CallExpr{Fun: simrtSel("YieldBlocked")}}}})
+	return &ast.LabeledStmt{Label: label, Stmt: &ast.ForStmt{Body: &ast.BlockStmt{List: []ast.Stmt{n}}}}, true
 }
 
 func blank(e ast.Expr) bool {
